@@ -3,7 +3,7 @@ Specification side of C13 / C08 (definitions only; part of the trusted statement
 the invariant `JInv`, the abstract store `JSpec` of the property text
 ("a map from (session, direction, sequence number) to message bytes plus two counters per
 session"), the abstraction function `abs`, the abstract effect of every call, and the
-range restriction `InRange` (SQLite INTEGER is 64 bits).
+excluded set `Op.HalfApplies` of the `_partial` theorems (SQLite INTEGER is 64 bits).
 -/
 import AsyncFix.Model.JournalDB
 namespace AsyncFix.Model.Journal
